@@ -115,6 +115,21 @@ CHECKS.update({
             'Partial: concurrent clause proved for serial schedules only - the code violates it under interleaving (F-C16b).', 'DESIGN §4 C16'),
 })
 
+CHECKS.update({
+    'C17': ('Lean 4 proof over an executable model of BeartypeConf.__new__ (normalise, validate, then memoise; cache invariant + induction '
+            'over every history) parametrised by the option table that a translator re-extracts from the source on every run; lock-step '
+            'differential of generated construction histories against the real class in fresh subprocesses',
+            '18 theorems (Props/C17.lean) for every well-formed option table (incl. the extracted one), every finite history, every keyword '
+            'dictionary: same call later -> same object/same exception; keyword order irrelevant; one object iff normalised arguments identical, '
+            'else unequal both ways; == is identity; hash agrees; valid values comparing == are identical; kwargs and every property read back '
+            'the passed arguments except three exactly characterised adjustments; BeartypeConf(**c.kwargs) is c; an invalid or unhashable value '
+            '-> BeartypeConfParamException from every state; never a raw exception. Tie: option table re-extracted from beartype/_conf on '
+            'every run; generated + directed histories run on the real class in fresh subprocesses and on the model after every call; clauses '
+            'evaluated on the real outputs.',
+            'Trusted: Lean kernel + standard axioms; the translator (textual recognition of validator conditions); the harness; values as '
+            'first-order terms with Python ==/hash; single-threaded histories (interleavings are C15).', 'DESIGN §4 C17'),
+})
+
 PENDING = {
 }
 
